@@ -52,9 +52,9 @@ type Event struct {
 	S    string // api name / state / tag / free text
 	S2   string
 	N    int
-	Off  int64 // send: end offset in the broker->client stream
-	Ref  int   // consumed: seq of the send; api.ret: seq of the call
-	G    int64 // goroutine-ish id for writes (not used for verdicts)
+	Off  int64  // send: end offset in the broker->client stream
+	Ref  int    // consumed: seq of the send; api.ret: seq of the call
+	G    int64  // goroutine-ish id for writes (not used for verdicts)
 	Mal  string // write/send: class of malformation found by the strict decoder ("" = well-formed)
 }
 
